@@ -1261,8 +1261,12 @@ class Interp:
             if f is None:
                 raise PyRaise(TypeError("object is not subscriptable"))
             return self.call(self._as_callable(f), [base, idx])
-        if isinstance(idx, np.ndarray) and idx.dtype == object and idx.size and isinstance(idx.flat[0], SBool):
+        if isinstance(idx, np.ndarray) and idx.dtype == object and idx.size and any(isinstance(x, SBool) for x in idx.flat):
+            if isinstance(base, np.ndarray) and base.ndim == 1 and idx.shape == base.shape:
+                return MaskedSelection(base, idx)
             raise EngineError("boolean-mask indexing with a symbolic mask needs a model")
+        if isinstance(base, MaskedSelection):
+            return base.item(idx)
         idx = self._concrete_index(idx)
         if isinstance(base, Sym):
             if idx == () or idx is Ellipsis:
@@ -1392,6 +1396,24 @@ def numbers_Number():
 
 
 _MISSING = object()
+
+
+class MaskedSelection:
+    """base[mask] for a 1-D base and a symbolic boolean mask: only the first / last selected element are modelled"""
+
+    def __init__(self, base, mask):
+        self.base, self.mask = base, mask
+
+    def item(self, i):
+        order = range(len(self.base)) if i == 0 else reversed(range(len(self.base))) if i == -1 else None
+        if order is None:
+            raise EngineError("masked selection: only [0] and [-1] are modelled")
+        order = list(order)
+        r = None
+        for k in reversed(order):
+            v = self.base[k]
+            r = v if r is None else sym.ite(self.mask[k], v, r)
+        return r
 
 
 class _SuperProxy:
@@ -1832,6 +1854,47 @@ def m_np_angle(interp, z, *a, **k):
     return one(z)
 
 
+def _dft_matrix(N, inverse):
+    """exact DFT matrix for N in {1, 2, 4} (entries in {1, -1, j, -j}); larger sizes need irrational roots of unity"""
+    if N not in (1, 2, 4):
+        raise EngineError("symbolic FFT only modelled for sizes 1, 2, 4 (exact roots of unity); got %d" % N)
+    w = {1: [1], 2: [1, -1], 4: [1, -1j, -1, 1j]}[N]
+    M = np.empty((N, N), dtype=object)
+    for k in range(N):
+        for n in range(N):
+            v = w[(k * n) % N]
+            M[k, n] = v.conjugate() if (inverse and isinstance(v, complex)) else v
+    return M
+
+
+def _fft_model(real, inverse):
+    def m(interp, a, n=None, axis=-1, **k):
+        if not contains_sym(a):
+            return interp.call_real(real, [a, n, axis], k)
+        a = np.asarray(a, dtype=object)
+        if axis not in (-1, a.ndim - 1):
+            raise EngineError("symbolic FFT only along the last axis")
+        L = a.shape[-1]
+        N = L if n is None else int(n)
+        if N < L:
+            a = a[..., :N]               # numpy crops longer input
+        elif N > L:
+            pad = np.zeros(a.shape[:-1] + (N - L,), dtype=object)
+            a = np.concatenate([a, pad], axis=-1)
+        M = _dft_matrix(N, inverse)
+        out = np.empty(a.shape, dtype=object)
+        for idx in np.ndindex(*a.shape[:-1]):
+            vec = a[idx]
+            res = np.dot(M, vec)
+            if inverse:
+                res = np.frompyfunc(lambda x: x / N, 1, 1)(res)
+            out[idx] = res
+        return out
+    return m
+
+
+DEFAULT_MODELS[np.fft.fft] = _fft_model(np.fft.fft, False)
+DEFAULT_MODELS[np.fft.ifft] = _fft_model(np.fft.ifft, True)
 DEFAULT_MODELS[np.linalg.pinv] = m_linalg_pinv
 DEFAULT_MODELS[np.angle] = m_np_angle
 DEFAULT_MODELS[np.array] = m_np_array
